@@ -106,7 +106,9 @@ type Program struct {
 	Tag   string         `json:"tag"`
 	Stmts []*Stmt        `json:"stmts"`
 	Exp   []Obs          `json:"exp"`
-	Fin   map[string]Val `json:"fin"` // what a header receives from the final value of each pooled name (t = "SKIP": not compared)
+	Free  []string       `json:"free"` // names whose value the reference leaves open (not compared)
+	Law   [][]string     `json:"law"`  // pairs of names that must hold equal values after the last statement
+	Fin   map[string]Val `json:"fin"`  // what a header receives from the final value of each pooled name (t = "SKIP": not compared)
 }
 
 // ExportName is the header a whole-program run copies the pooled name n to before the subroutine returns.
